@@ -3,7 +3,7 @@ import json
 import math
 from fractions import Fraction
 
-from props.c07 import run_driver, eval_files, dists_lit, q, ikey, HDR
+from props.c07 import run_driver, eval_files, dists_lit, q, ikey, HDR, model_dist
 
 
 def run(rep, work, tier, seed, only=None):
@@ -25,7 +25,12 @@ def run(rep, work, tier, seed, only=None):
                           '%s%s dir=%s/8 p=%d/16: log_output for error bits %d is %r, log of the probability is %r'
                           % (p['cls'], tuple(p['size']), p['dir'], p['p16'], lb['error_bits'], lb['log'], lb['expected']),
                           {'instance': ikey(p, 'error_probability-log'), 'direction_eighths': p['dir'], 'rate_sixteenths': p['p16'], 'detail': lb})
-    render = lambda p: 'probs_ok_fast %s [%s]' % (dists_lit(p['dists']), '; '.join(q(v) for v in p['vals']))
+    # the per-qubit channel the product is taken over is the STATED one (direction, rate, deformation dictionary of each qubit)
+    def stated(p):
+        return [[[f.numerator, f.denominator] for f in model_dist(p, i)] for i in range(p['n'])]
+    for p in items:
+        p['stated'] = stated(p)
+    render = lambda p: 'probs_ok_fast %s [%s]' % (dists_lit(p['stated']), '; '.join(q(v) for v in p['vals']))
     small = [p for p in items if len(p['vals']) <= 2000]
     big = [p for p in items if len(p['vals']) > 2000]        # one case per file: a 4^7-element literal is large enough
     okmap = {}
@@ -44,7 +49,7 @@ def run(rep, work, tier, seed, only=None):
             exp = Fraction(1)
             for i in range(n):
                 x, z = (v >> i) & 1, (v >> (n + i)) & 1
-                exp *= Fraction(*p['dists'][i][(0, 1, 3, 2)[x + 2 * z]])
+                exp *= Fraction(*p['stated'][i][(0, 1, 3, 2)[x + 2 * z]])
             if exp != Fraction(*val):
                 bad = (v, str(Fraction(*val)), str(exp))
                 break
